@@ -4,6 +4,7 @@ import itertools
 from .. import astx
 from .. import db as D
 from .. import prog as P
+from ..rules import slots
 from ..rules import life as L
 from ..rules import guard as G
 
@@ -238,6 +239,12 @@ def run(chk, tier):
                 analyse_function(chk, db, sigs, owner, kind, rq, f, state)
                 nfun += 1
             rule_of_five(chk, db, rq)
+    # SLOTS-D / SLOTS-C: the destroyed range is the removed tail; construction happens at the first free slot
+    slots.check(chk, D.load("plain"), ["static_vector", "inplace_vector"],
+                lambda r: ("trivial_storage" not in r) or ("non_trivial" in r), only=("D", "C"))
+    if chk.rule_instances.get("SLOTS-D", 0) < 4 or chk.rule_instances.get("SLOTS-C", 0) < 3:
+        chk.analysis_broken("SLOTS: only %d shrinking / %d constructing size stores found in the vectors (floors 4 / 3)" % (
+            chk.rule_instances.get("SLOTS-D", 0), chk.rule_instances.get("SLOTS-C", 0)))
     # delegating owners: no primitive lifecycle effect of their own, rule of five
     for rq in DELEGATING:
         if not db.rec_by_q.get(rq):
